@@ -5,8 +5,11 @@ use vstd::std_specs::cmp::OrdSpec;
 macro_rules! trace { ($($t:tt)*) => {}; }
 verus! {
 //@include shims/std_wide.rs
-use std::hash::Hash;
-use std::fmt;
+use ::std::hash::Hash;
+use ::std::fmt;
+use ::std::sync::Arc;
+// `std::sync::Mutex` in the extracted struct resolves to the shim below
+pub mod std { pub mod sync { pub use crate::Mutex; } }
 
 // ---- trusted shim: rustc_hash::FxHashMap viewed as Map<K, V>
 #[verifier::external_body]
@@ -43,7 +46,6 @@ pub trait MappedAddr: Sized {
     // a random address of this kind: ANY value may come out
     fn generate() -> Self;
 }
-pub struct AddrMap<K, V> { pub p: core::marker::PhantomData<(K, V)> }
 
 //@item iroh/src/socket/mapped_addrs.rs struct AddrMapInner pubfields pub
 //@| #[verifier::reject_recursive_types(K)]
@@ -57,58 +59,88 @@ impl<K, V> AddrMapInner<K, V> {
     }
 }
 
+// ---- std::sync::Mutex around the two maps.  ASSUMPTIONS: mutual exclusion, never poisoned.  What a thread finds
+// when it acquires the lock is ANY state satisfying the representation invariant (other threads may have run any
+// number of critical sections in between); what it must leave behind is checked at the end of each critical section.
+pub struct PoisonError;
+#[verifier::external] impl core::fmt::Debug for PoisonError { fn fmt(&self, f: &mut core::fmt::Formatter<'_>) -> core::fmt::Result { Ok(()) } }
+#[verifier::external_body]
+#[verifier::reject_recursive_types(T)]
+pub struct Mutex<T> { t: core::marker::PhantomData<T> }
+#[verifier::external_body]
+#[verifier::reject_recursive_types(K)]
+#[verifier::reject_recursive_types(V)]
+pub struct MutexGuard<'a, K, V> { g: core::marker::PhantomData<&'a mut (K, V)> }
+impl<'a, K, V> MutexGuard<'a, K, V> { pub uninterp spec fn st(&self) -> AddrMapInner<K, V>; }
+impl<'a, K, V> core::ops::Deref for MutexGuard<'a, K, V> {
+    type Target = AddrMapInner<K, V>;
+    #[verifier::external_body]
+    fn deref(&self) -> (r: &AddrMapInner<K, V>) ensures *r == self.st() { unimplemented!() }
+}
+impl<'a, K, V> core::ops::DerefMut for MutexGuard<'a, K, V> {
+    #[verifier::external_body]
+    fn deref_mut(&mut self) -> (r: &mut AddrMapInner<K, V>) ensures *r == old(self).st(), final(self).st() == *final(r) { unimplemented!() }
+}
+impl<K, V> Mutex<AddrMapInner<K, V>> {
+    #[verifier::external_body]
+    pub fn lock<'a>(&'a self) -> (r: Result<MutexGuard<'a, K, V>, PoisonError>)
+        ensures r matches Ok(g) && g.st().inv()
+    { unimplemented!() }
+}
+//@item iroh/src/socket/mapped_addrs.rs struct AddrMap pubfields
+//@| #[verifier::reject_recursive_types(K)]
+//@| #[verifier::reject_recursive_types(V)]
+
+// what a critical section of `get` must leave behind, relative to the state it found (g0): the invariant, the key
+// mapped to the returned address, every mapping it found still there and unchanged, and nothing else added
+pub open spec fn get_release_ok<K, V>(g0: AddrMapInner<K, V>, g1: AddrMapInner<K, V>, key: K, r: V) -> bool {
+    &&& g1.inv()
+    &&& g1.addrs@.contains_key(key) && g1.addrs@[key] == r
+    &&& forall|k: K| g0.addrs@.contains_key(k) ==> g1.addrs@.contains_key(k) && g1.addrs@[k] == #[trigger] g0.addrs@[k]
+    &&& forall|k: K| #[trigger] g1.addrs@.contains_key(k) ==> k == key || g0.addrs@.contains_key(k)
+}
+
 impl<K, V> AddrMap<K, V>
 where
     K: Eq + Hash + Clone + fmt::Debug,
     V: MappedAddr + Eq + Hash + Copy + fmt::Debug,
 {
-//@fn iroh/src/socket/mapped_addrs.rs AddrMap::get props=C18 ret=r
-//@| requires old(inner).inv()
-//@| ensures
-//@|     final(inner).inv(),
-//@|     // the key now has exactly this address ...
-//@|     final(inner).addrs@.contains_key(*key) && final(inner).addrs@[*key] == r,
-//@|     // ... every previously mapped key keeps its address (stability) ...
-//@|     forall|k: K| old(inner).addrs@.contains_key(k) ==> final(inner).addrs@.contains_key(k) && final(inner).addrs@[k] == #[trigger] old(inner).addrs@[k],
-//@|     // ... and nothing else was added
-//@|     forall|k: K| final(inner).addrs@.contains_key(k) ==> k == *key || old(inner).addrs@.contains_key(k),
+//@fn iroh/src/socket/mapped_addrs.rs AddrMap::get props=C18 ret=r bindtail=result_
 //@attr
 //@| #[verifier::exec_allows_no_decreases_clause]
-//@rw R3 1
-//@- (&self, key: &K)
-//@+ (&self, inner: &mut AddrMapInner<K, V>, key: &K)
-//@rw R3 1
-//@-         let mut inner = self.inner.lock().expect("poisoned");
-//@+
-//@rw R2 1
+//@rw R2 *
 //@- let addr = loop {
 //@+ let addr; loop {
-//@rw R2 1
+//@rw R2 *
 //@- break candidate;
 //@+ addr = candidate; break;
-//@rwx R11 2
+//@rwx R11 *
 //@- key\.clone\(\)
 //@+ clone_key(key)
+//@ins after 1
+//@- let mut inner = self.inner.lock()
+//@| let ghost g0 = inner.st();
+//@atend
+//@| proof { assert(get_release_ok(g0, inner.st(), *key, result_)); }   // [C18] obligation at the end of the critical section
 //@loop 1
-//@| invariant inner.inv(), *inner == *old(inner), !inner.addrs@.contains_key(*key)
-//@| ensures !inner.lookup@.contains_key(addr), inner.inv(), *inner == *old(inner), !inner.addrs@.contains_key(*key)
+//@| invariant inner.st().inv(), inner.st() == g0, !inner.st().addrs@.contains_key(*key)
+//@| ensures !inner.st().lookup@.contains_key(addr), inner.st().inv(), inner.st() == g0, !inner.st().addrs@.contains_key(*key)
 //@end
 
-//@fn iroh/src/socket/mapped_addrs.rs AddrMap::lookup props=C18 ret=r
-//@| requires inner.inv()
-//@| ensures
-//@|     r == (if inner.lookup@.contains_key(*addr) { Some(inner.lookup@[*addr]) } else { None::<K> }),
-//@|     // translating a synthetic address back yields exactly its key
-//@|     r matches Some(k) ==> inner.addrs@.contains_key(k) && inner.addrs@[k] == *addr,
-//@rw R3 1
-//@- (&self, addr: &V)
-//@+ (&self, inner: &AddrMapInner<K, V>, addr: &V)
-//@rw R3 1
-//@-         let inner = self.inner.lock().expect("poisoned");
-//@+
-//@rw R11 1
+//@fn iroh/src/socket/mapped_addrs.rs AddrMap::lookup props=C18 ret=r bindtail=result_
+//@rw R11 *
 //@- inner.lookup.get(addr).cloned()
 //@+ cloned_key(inner.lookup.get(addr))
+//@ins after 1
+//@- let inner = self.inner.lock()
+//@| let ghost g0 = inner.st();
+//@atend
+//@| proof {
+//@|     // translating a synthetic address back yields exactly the key that maps to it
+//@|     assert(result_ == (if g0.lookup@.contains_key(*addr) { Some(g0.lookup@[*addr]) } else { None::<K> }));
+//@|     assert(result_ matches Some(k) ==> g0.addrs@.contains_key(k) && g0.addrs@[k] == *addr);
+//@|     assert(inner.st() == g0);
+//@| }
 //@end
 }
 
